@@ -166,13 +166,19 @@ def run(ctx):
             if pn not in mem.params:
                 ctx.unknown('T15.neg', mem.fq, 'parameter %s not found' % pn, mem.loc)
                 continue
-            tests = [n for n in ast.walk(mem.node) if isinstance(n, ast.If) and any(
-                cmp_text(c, pn) == '%s < 0' % pn for c in ast.walk(n.test) if isinstance(c, ast.Compare))]
-            fixes = [n for n in tests if any(
-                (isinstance(x, ast.AugAssign) and txt(x.target) == pn and isinstance(x.op, ast.Add)) or
-                (isinstance(x, ast.Assign) and any(txt(t) == pn for t in x.targets) and any(
-                    isinstance(b, ast.BinOp) and isinstance(b.op, ast.Add) and pn in (txt(b.left), txt(b.right)) for b in ast.walk(x.value)))
-                for st in n.body for x in ast.walk(st))]
+            # the position may be copied into a local first (`i = index`): the copy stands for the parameter
+            copies = [pn] + [n.targets[0].id for n in ast.walk(mem.node) if isinstance(n, ast.Assign) and len(n.targets) == 1 and
+                             isinstance(n.targets[0], ast.Name) and isinstance(n.value, ast.Name) and n.value.id == pn]
+            tests, fixes = [], []
+            for q in copies:
+                tq = [n for n in ast.walk(mem.node) if isinstance(n, ast.If) and any(
+                    cmp_text(c, q) == '%s < 0' % q for c in ast.walk(n.test) if isinstance(c, ast.Compare))]
+                tests += tq
+                fixes += [n for n in tq if any(
+                    (isinstance(x, ast.AugAssign) and txt(x.target) == q and isinstance(x.op, ast.Add)) or
+                    (isinstance(x, ast.Assign) and any(txt(t) == q for t in x.targets) and any(
+                        isinstance(b, ast.BinOp) and isinstance(b.op, ast.Add) and q in (txt(b.left), txt(b.right)) for b in ast.walk(x.value)))
+                    for st in n.body for x in ast.walk(st))]
             if not fixes:
                 # the normalisation may live in a private helper the position is passed through: p = self._h(p) / f(self._h(p))
                 for c in ast.walk(mem.node):
